@@ -253,9 +253,14 @@ func (f *SecretFactory) New(b []byte) (securememory.Secret, error) {
 	if err := f.memcall().Protect(secret.bytes, memcall.NoAccess()); err != nil {
 		// Shouldn't happen, but free up the resources if it does. We intentionally
 		// ignore the errors from the cleanup and return the reason why we got here.
+		// The pages still hold the secret: wipe them before they are unlocked and freed.
+		core.Wipe(secret.bytes)
+
 		if err2 := memcall.Clean(f.memcall(), secret.bytes); err2 != nil {
 			err = errors.Wrap(err, err2.Error())
 		}
+
+		secret.abandon()
 
 		return nil, err
 	}
@@ -283,9 +288,13 @@ func (f *SecretFactory) createRandom(size int, readFunc func(b []byte) (n int, e
 	if _, err := readFunc(s.bytes); err != nil {
 		// Shouldn't happen, but free up the resources if it does. We intentionally
 		// ignore the errors from the cleanup and return the reason why we got here.
+		core.Wipe(s.bytes)
+
 		if err2 := memcall.Clean(f.memcall(), s.bytes); err2 != nil {
 			err = errors.Wrap(err, err2.Error())
 		}
+
+		s.abandon()
 
 		return nil, err
 	}
@@ -294,6 +303,8 @@ func (f *SecretFactory) createRandom(size int, readFunc func(b []byte) (n int, e
 	if err := f.memcall().Protect(s.bytes, memcall.NoAccess()); err != nil {
 		// Shouldn't happen, but free up the resources if it does. We intentionally
 		// ignore the errors from the cleanup and return the reason why we got here.
+		core.Wipe(s.bytes)
+
 		if err2 := f.memcall().Unlock(s.bytes); err2 != nil {
 			err = errors.Wrap(err, err2.Error())
 		}
@@ -302,6 +313,8 @@ func (f *SecretFactory) createRandom(size int, readFunc func(b []byte) (n int, e
 			err = errors.Wrap(err, err2.Error())
 		}
 
+		s.abandon()
+
 		return nil, err
 	}
 
@@ -309,6 +322,18 @@ func (f *SecretFactory) createRandom(size int, readFunc func(b []byte) (n int, e
 	securememory.InUseCounter.Inc(1)
 
 	return s, nil
+}
+
+// abandon marks a secret whose creation failed (and whose memory has already been released) as closed and
+// disarms its finalizer, so that nothing touches the released pages again: the address range may already
+// belong to another secret by the time the garbage collector runs.
+func (s *secret) abandon() {
+	s.rw.Lock()
+	s.closing = true
+	s.closed = true
+	s.rw.Unlock()
+
+	runtime.SetFinalizer(s.dummy, nil)
 }
 
 // newSecret handles the core allocation/setup of a new secret of the given size.
